@@ -374,6 +374,12 @@ def empty_element(case):
     return False
 
 
+def unit_scale(case):
+    """physical units of the data: every sixth case is of tiny (1e-10) and every sixth of huge (1e8) magnitude"""
+    r = int(case.get("dseed", 0)) % 6
+    return 1e-10 if r == 3 else (1e8 if r == 4 else 1.0)
+
+
 def raw_matrices(case, n, rng, nan_rows=()):
     """One n x p matrix per field: common low-rank signal (so the fields co-vary) + full-rank noise + offset."""
     cplx = case["cplx"]
@@ -391,7 +397,7 @@ def raw_matrices(case, n, rng, nan_rows=()):
         if cplx:
             A = A + 1j * rng.standard_normal((r, p))
         M = T @ A * 0.8 + gen.random_field(n, p, rng, cplx=cplx, scale=1.0, offset=True)
-        M = np.array(M)
+        M = np.array(M) * unit_scale(case)
         if len(cc):
             M[:, cc] = np.nan
         if len(nan_rows):
